@@ -236,6 +236,13 @@ class AbstractPySwarms(AbstractMLE):
         return search_internal
 
     def output_search_internal(self, search_internal):
+        # the optimiser's reporter keeps the tqdm progress bar of the last `optimize` call; a pickle
+        # containing it can be written but never loaded again (RecursionError), so a fit could
+        # neither be resumed nor, once complete, be loaded with its search internal
+        reporter = getattr(search_internal, "rep", None)
+        if getattr(reporter, "t", None) is not None:
+            reporter.t = None
+
         try:
             self.paths.save_search_internal(
                 obj=search_internal,
